@@ -325,7 +325,11 @@ func oneCmd(t *rapid.T, f *gen.Func, shape string) bool {
 		elem = gen.Ptr(t, f.ElementsType, o, "elements")
 	}
 	var payload any
-	if !strings.HasPrefix(shape, "read") {
+	if !strings.HasPrefix(shape, "read") && rapid.IntRange(0, 3).Draw(t, "functionNeverHadData") == 0 {
+		// a reply / notify / write built before the function got its first data (a read arriving
+		// before the application filled the function): still that function, with its payload type
+		world.Label("payload/function-never-had-data")
+	} else if !strings.HasPrefix(shape, "read") {
 		pv := gen.Ptr(t, f.DataType, gen.Opt{}, "payload")
 		payload = pv.Interface()
 		if _, err := fd.UpdateDataAny(false, true, payload, nil, nil); err != nil {
